@@ -5,7 +5,7 @@ import z3
 from sx import core as S, env as E, npshim, mat
 
 PROPERTY = "C12"
-REGIONS = ["queries-after-tighten", "bound-tightened", "crossed-bounds", "coef-magnitude>1-positive", "coef-magnitude>1-negative", "zero-coef", "symbolic-box", "negative-lower-bound"]
+REGIONS = ["coefficient-with-inexact-reciprocal", "queries-after-tighten", "bound-tightened", "crossed-bounds", "coef-magnitude>1-positive", "coef-magnitude>1-negative", "zero-coef", "symbolic-box", "negative-lower-bound"]
 BOUNDS = ("coefficient matrices up to 3x3 with entries in {-3..3} (curated + seeded; concrete because coefficient x bound products must stay linear); "
           "right-hand sides b symbolic |b|<=2^17; variable boxes symbolic inside [-32768,32767] (families: all boolean, one symbolic column, "
           "mixed, all symbolic); a symbolic in-box point x")
@@ -38,6 +38,9 @@ def instantiations(tier, seed):
         if k % 2 == 0 or tier == "thorough":
             # the same queries AFTER tighten_column_bounds() was called on the same object (the accessors must keep describing the declared box)
             out.append({"A": A, "boxes": mat.boxes_for("onesym", nc, rng), "part": "rows", "after_tighten": True})
+    for A in mat.BIG_A:
+        nc = len(A[0])
+        out.append({"A": A, "boxes": [[0, 1]] * nc if nc == 1 else ["sym"] + [[0, 1]] * (nc - 1), "part": "tighten", "bigcoef": True})
     for mu in ("sound_strict", "rowlo_off", "nrc_off"):
         out.append({"kind": "mutant", "mutant": mu, "A": [[1, -2, 3], [2, 0, -1]], "boxes": ["sym", [0, 1], [-2, 3]],
                     "part": "tighten" if mu == "sound_strict" else "rows"})
@@ -152,7 +155,12 @@ def run_inst(spec, run):
                     run.region("bound-tightened")
                 if "crossed-bounds" not in run.regions and ctx.query(z3.Or([lb[j] > ub[j] for j in range(nc)]))[0] == "sat":
                     run.region("crossed-bounds")
-                run.validate(ctx, conc, lambda m: {"tb": [[S.model_int(m, v) for v in lb], [S.model_int(m, v) for v in ub]]})
+                ext = None
+                if spec.get("bigcoef"):
+                    # float64 effects show where a bound divides exactly: bias the second validation sample there
+                    ext = z3.Or([b[i].e % abs(A[i][j]) == 0 for i in range(nr) for j in range(nc) if abs(A[i][j]) > 3])
+                    run.region("coefficient-with-inexact-reciprocal")
+                run.validate(ctx, conc, lambda m: {"tb": [[S.model_int(m, v) for v in lb], [S.model_int(m, v) for v in ub]]}, extremes=ext)
             else:
                 rb = res["out"]["rb"]
                 nrc = res["out"]["nrc"]
